@@ -1,4 +1,5 @@
 import Pixman.Model.Filter
+import Pixman.Model.FilterKernels
 /-! Line-protocol driver for the filter domain (C18).  One request per line, one reply per line.
 
     create <rx> <sx> <scale_x> <bits_x> <ry> <sy> <scale_y> <bits_y>
@@ -10,6 +11,7 @@ import Pixman.Model.Filter
                then `G` and the ng cells behind the block -/
 namespace Driver.Filter
 open Pixman.Model.Filter
+open Pixman.Model.FilterKernels
 
 def parseInts (ts : List String) : Option (List Int) := ts.mapM String.toInt?
 
@@ -56,6 +58,77 @@ def doBlock (a : List Int) : String :=
     String.join (cells.map fun c => toString c ++ " ") ++ "G" ++ String.join (guard.map fun c => " " ++ toString c)
   | _ => "ERR block"
 
+/-- absolute error of a library double (an argument of `floor`) against the exact value, in units of 2^-37
+    (= 65536 · 2^-53: one ulp of a coefficient of size 1 after the multiplication by 65536; also one ulp of a normalised
+    value of size 65536), rounded up -/
+def ulps (lib exact : Rat) : Nat :=
+  ((lib - exact).abs * ((2 ^ 37 : Nat) : Rat)).ceil.toNat
+
+/-- `exact <r> <s> <scale> <bits> <w> <bits of the w·n arguments of the sampling floor> <… of the normalisation floor>`
+    reply: `OK <e1> <e2> <res> <flipsRaw> <flipsPre> <negs>`:
+    e1 = largest error of a sampling-loop floor argument `c*65536+0.5` against the exact Simpson/closed-form value,
+    e2 = largest error of a normalisation-loop floor argument `v+0.5` against the exact value obtained by following the
+         library's own roundings, both as absolute errors in units of 2^-37;
+    res = largest deviation of the residual 65536 − Σ t from the exact model's (0; 65536 for an all-zero phase);
+    flipsRaw / flipsPre = taps where floor of the exact argument differs from the library's integer (ties);
+    negs = sampled coefficients below 0 in the exact model -/
+def doExact (a : List Int) : String :=
+  match a with
+  | r :: s :: scale :: bits :: w :: rest =>
+    let r := r.toNat; let s := s.toNat; let w := w.toNat
+    let n := 2 ^ bits.toNat
+    let cells := w * n
+    let vals := rest.toArray
+    if vals.size != 2 * cells then "ERR exact length" else
+    if !(isPoly r && isPoly s) then "ERR exact kernel" else
+    Id.run do
+      let mut e1 := 0
+      let mut e2 := 0
+      let mut res : Nat := 0
+      let mut flipsRaw := 0
+      let mut flipsPre := 0
+      let mut negs := 0
+      let sc := scaleOf scale
+      for i in [0:n] do
+        -- sampling loop
+        let mut raws : List Int := []
+        let mut rawsExact : List Int := []
+        for k in [0:w] do
+          match coeff r s sc (pos w n i k), ofBits (vals.getD (i * w + k) 0).toNat with
+          | some c, some al =>
+            let ex := rawArg c
+            e1 := max e1 (ulps al ex)
+            if c < 0 then negs := negs + 1
+            raws := raws ++ [al.floor]
+            rawsExact := rawsExact ++ [ex.floor]
+            if al.floor != ex.floor then flipsRaw := flipsRaw + 1
+          | _, _ => return "BAD assert/fuel/NaN in phase " ++ toString i ++ " tap " ++ toString k
+        -- normalisation loop, following the library's roundings
+        let c := normFactor (sumInts raws)
+        let mut e : Rat := 0
+        let mut tot : Int := 0
+        let mut ts : List Int := []
+        let mut k := 0
+        for rv in raws do
+          match ofBits (vals.getD (cells + i * w + k) 0).toNat with
+          | some al =>
+            let v := (rv : Rat) * c + e
+            e2 := max e2 (ulps al (v + 1 / 2))
+            let t := al.floor
+            ts := ts ++ [t]
+            tot := tot + t
+            e := v - t
+          | none => return "BAD NaN in the normalisation of phase " ++ toString i
+          k := k + 1
+        -- expected residual: 0, or 65536 for a phase whose samples add up to 0 (Props.C18K.N_exact_total / N_zero_total)
+        res := max res (65536 - tot - (if sumInts raws = 0 then 65536 else 0)).natAbs
+        -- the fully exact pipeline for comparison
+        let pe := normalise rawsExact
+        flipsPre := flipsPre + ((pe.zip ts).filter fun (x, y) => x != y).length
+      return "OK " ++ toString e1 ++ " " ++ toString e2 ++ " " ++ toString res ++ " " ++ toString flipsRaw ++ " "
+        ++ toString flipsPre ++ " " ++ toString negs
+  | _ => "ERR exact"
+
 def handle (line : String) : String :=
   match (line.trimAscii.toString.splitOn " ").filter (· ≠ "") with
   | [] => ""
@@ -66,6 +139,7 @@ def handle (line : String) : String :=
       if op == "create" then doCreate a
       else if op == "x1s" then doX1s a
       else if op == "block" then doBlock a
+      else if op == "exact" then doExact a
       else "ERR op"
 
 end Driver.Filter
